@@ -113,6 +113,8 @@ pub fn destination(t: &Target) -> SocketAddr {
 pub struct Dgram {
     pub key: usize,
     pub secure: bool,
+    /// family of the socket address the transport reports as bound: the IPv6 wildcard `[::]` and IPv4-mapped
+    /// IPv6 addresses are IPv6, `0.0.0.0` is IPv4 (the statement compares families, not reachability)
     pub bound_v6: bool,
 }
 
